@@ -128,6 +128,14 @@ pub fn c01_pins() -> Vec<Pin> {
     vec![
         // ---- fixed on this tree (regression probes: must stay silent)
         Pin {
+            name: "else_after_short_circuit",
+            src: "unsigned char g, h, s, t; void main() { if (X < g && h) s = 1; else if (h) t++; }",
+            init: &[("g", 0), ("h", 0), ("s", 0), ("t", 5)],
+            x: 154,
+            y: 0,
+            expect: &[("t", 5), ("s", 0)],
+        },
+        Pin {
             name: "or_zero_before_push",
             src: "unsigned char a, g; void main() { Y = 3; g = (a | 46) ^ (0 | Y); }",
             init: &[("a", 1)],
